@@ -188,6 +188,24 @@ def batch_check(ctx, c, outs):
         if not np.abs(whole[i] - one).max() <= 1e-12 * max(1.0, float(np.linalg.norm(v))):
             return (f"{c['label']}: direction {v.tolist()} projects to {whole[i].tolist()} when projected together with "
                     f"{len(vs) - 1} others but to {one.tolist()} alone")
+    # the same directions as crystal vectors (Miller) arranged in two dimensions: each position holds the projection of the
+    # vector at THAT position
+    nn = (len(vs) // 2) * 2
+    if nn >= 4:
+        from orix.crystal_map import Phase
+        from orix.vector import Miller
+        with warnings.catch_warnings():
+            warnings.simplefilter("ignore")
+            m = Miller(xyz=np.array(vs[:nn], float).reshape(2, nn // 2, 3), phase=Phase(point_group="1"))
+            got = np.asarray(m.in_fundamental_sector(G).data, float)
+        want = whole[:nn].reshape(2, nn // 2, 3)
+        if got.shape != want.shape:
+            return f"{c['label']}: Miller of shape (2, {nn // 2}) projects to an object of shape {got.shape[:-1]}"
+        bad = np.argwhere(np.abs(got - want).max(axis=-1) > 1e-12 * np.maximum(1.0, np.linalg.norm(want, axis=-1)))
+        if len(bad):
+            i, j = (int(t) for t in bad[0])
+            return (f"{c['label']}: Miller.in_fundamental_sector on vectors arranged as (2, {nn // 2}): position ({i}, {j}) holds "
+                    f"{got[i, j].tolist()} but the vector there, {vs[i * (nn // 2) + j].tolist()}, projects to {want[i, j].tolist()}")
     return None
 
 
